@@ -70,6 +70,10 @@ fn check_expansion(codec: Codec, data: &[u8], t: &mut Tally) -> Option<(String, 
 fn periodic(gen: usize, p: usize, n: usize, base: &[u8]) -> Vec<u8> {
     let period: Vec<u8> = match gen {
         0 => base[..p].to_vec(),
+        // "blank records": a 4-byte tag, the rest of the period zero (long runs inside the period)
+        2 => (0..p).map(|i| if i < 4 { i as u8 + 1 } else { 0 }).collect(),
+        // "index table": (i mod p) as a byte — the period contains near-copies of itself at shift 256
+        3 => (0..p).map(|i| i as u8).collect(),
         _ => (0..p).map(|i| ((i * 7) % 3) as u8 + if i % 11 == 0 { 1 } else { 0 }).collect(),
     };
     (0..n).map(|i| period[i % p]).collect()
@@ -178,6 +182,17 @@ fn explore(ctx: &Ctx) -> Outcome {
             }
         }
     }
+    // self-similar periods on long inputs: the match search must still reach the displacement
+    // that matches in full (a search that gives up early, or prefers a far partial match, loses here)
+    let long_periods: Vec<usize> = ctx.tier.pick(vec![300usize, 528, 627, 640, 872, 1000, 1500, 2500, 3000], vec![300, 400, 528, 600, 627, 640, 650, 700, 872, 1000, 1200, 1500, 2000, 2500, 3000, 3500, 4000]);
+    for &p in &long_periods {
+        for gen in 2..4 {
+            grid.push((gen, p, 300_000));
+        }
+    }
+    for (gen, p, n) in [(2usize, 627usize, 1_200_000usize), (3, 872, 700_000), (2, 640, 1_000_000), (3, 1500, 700_000)] {
+        grid.push((gen, p, n));
+    }
     let t = grid
         .par_iter()
         .fold(Tally::new, |mut t, &(gen, p, n)| {
@@ -197,7 +212,7 @@ fn explore(ctx: &Ctx) -> Outcome {
     total.sample(json!({"kind": "expansion", "desc": "norepeat n=64"}));
 
     let mut o = total.into_outcome(
-        "expansion bound |out| <= header + n + ceil(n/8) asserted for both codecs on every input of the small-alphabet families, incompressible data of every length 0..=64 (+ long ones), header-boundary lengths and the structure grid; effectiveness bound asserted on the periodic grid periods x 2 pattern generators x 9 total lengths (plus 7 periods x lengths 70 000 and 140 000); non-trivial = periodic-grid cases",
+        "expansion bound |out| <= header + n + ceil(n/8) asserted for both codecs on every input of the small-alphabet families, incompressible data of every length 0..=64 (+ long ones), header-boundary lengths and the structure grid; effectiveness bound asserted on the periodic grid periods x 2 pattern generators x 9 total lengths (plus 7 periods x lengths 70 000 and 140 000, and blank-record / index-table periods at 300 000..1 200 000 bytes); non-trivial = periodic-grid cases",
         true,
         vec![("layers", json!(layers))],
     );
